@@ -706,3 +706,47 @@ def _zfill(ip, fv, args, kwargs, pure):
         wt = I(w)
         return SStr(sym.HEXFMT(z3.If(wt >= w0, wt, w0), n))
     raise Unsupported("zfill on %r" % (v,))
+
+
+@model("int.to_bytes_unbound")
+def _to_bytes_unbound(ip, fv, args, kwargs, pure):
+    # int.to_bytes(n, length, byteorder)
+    if not args:
+        raise Unsupported("int.to_bytes()")
+    return _to_bytes(ip, SBuiltin("int.to_bytes", args[0]), args[1:], kwargs, pure)
+
+
+@model("setattr")
+def _setattr(ip, fv, args, kwargs, pure):
+    _nargs(args, 3, "setattr")
+    o, name, v = args
+    if not isinstance(o, SObj) or not isinstance(name, str):
+        raise Unsupported("setattr on %r with name %r" % (o, name))
+    ip.obj_setattr(o, name, v)
+    return None
+
+
+@model("getattr")
+def _getattr(ip, fv, args, kwargs, pure):
+    if len(args) not in (2, 3) or not isinstance(args[1], str):
+        raise Unsupported("getattr form")
+    try:
+        return ip.getattr(args[0], args[1], pure)
+    except Raise as r:
+        if r.exc == "AttributeError" and len(args) == 3:
+            return args[2]
+        raise
+
+
+@model("zip")
+def _zip(ip, fv, args, kwargs, pure):
+    if all(isinstance(a, (list, tuple)) for a in args):
+        return [tuple(x) for x in zip(*args)]
+    raise Unsupported("zip of symbolic sequences")
+
+
+@model("enumerate")
+def _enumerate(ip, fv, args, kwargs, pure):
+    if len(args) == 1 and isinstance(args[0], (list, tuple)):
+        return [(i, x) for i, x in enumerate(args[0])]
+    raise Unsupported("enumerate of symbolic sequence")
